@@ -7,27 +7,31 @@
 EXTENDS ProviderQueryManager, Json
 
 Trace == ndJsonDeserialize("trace.ndjson")
-VARIABLES l, du      \* du: deviations used so far (over all runs of the trace)
-tvars == <<w, l, du>>
+VARIABLES l, du,     \* du: deviations used so far (over all runs of the trace)
+          qm         \* the harness numbers the router's queries by call order; qm maps them to the model's
+tvars == <<w, l, du, qm>>
 ASSUME TLCSet(1, 0)
 
 Ev == Trace[l]
 IsEvent(e) == l <= Len(Trace) /\ Trace[l].ev = e /\ l' = l + 1
 
-TInit == l = 1 /\ du = {} /\ w = World0([mip |-> 0, mpc |-> 0, fp |-> FALSE, ign |-> {}, maxticks |-> 0])
+QM0 == [h \in Qs |-> 0]
+Q(h) == qm[h]
+TInit == l = 1 /\ du = {} /\ qm = QM0 /\ w = World0([mip |-> 0, mpc |-> 0, fp |-> FALSE, ign |-> {}, maxticks |-> 0])
 
-TReset  == /\ IsEvent("Reset")
+TReset  == /\ IsEvent("Reset") /\ qm' = QM0
            /\ w' = World0([mip |-> Ev.mip, mpc |-> Ev.mpc, fp |-> Ev.fp, ign |-> ToSet(Ev.ign), maxticks |-> 0])
 TCall   == IsEvent("Call") /\ Ev.r \in Reqs /\ Ev.k \in Keys /\ CallEn(w, Ev.r) /\ w' = CallF(w, Ev.r, Ev.k, Ev.m)
 TCancel == IsEvent("Cancel") /\ w.req[Ev.r].st # "idle" /\ w' = CancelF(w, Ev.r)
-\* the router is called: the worker took the head of the FIFO queue and a semaphore slot
-TRStart == /\ IsEvent("RStart") /\ StartQueryEn(w) /\ Head(w.queue) = Ev.q /\ w.qry[Ev.q].key = Ev.k
-           /\ w' = StartQueryF(w)
-TREmit  == IsEvent("REmit") /\ EmitEn(w, Ev.q) /\ Ev.i = w.qry[Ev.q].em + 1 /\ w' = EmitF(w, Ev.q)
-TDial   == IsEvent("Dial") /\ Ev.c \in DialClasses /\ DialEn(w, Ev.q, Ev.i) /\ w' = DialF(w, Ev.q, Ev.i, Ev.c)
-TREnd   == IsEvent("REnd") /\ EndEn(w, Ev.q) /\ w' = EndF(w, Ev.q)
+\* the router is called by the goroutine of some started query for that key
+TRStart == /\ IsEvent("RStart") /\ Ev.q \in Qs
+           /\ \E q \in Qs : /\ RouterCallEn(w, q) /\ w.qry[q].key = Ev.k
+                            /\ w' = RouterCallF(w, q) /\ qm' = [qm EXCEPT ![Ev.q] = q]
+TREmit  == IsEvent("REmit") /\ EmitEn(w, Q(Ev.q)) /\ Ev.i = w.qry[Q(Ev.q)].em + 1 /\ w' = EmitF(w, Q(Ev.q))
+TDial   == IsEvent("Dial") /\ Ev.c \in DialClasses /\ DialEn(w, Q(Ev.q), Ev.i) /\ w' = DialF(w, Q(Ev.q), Ev.i, Ev.c)
+TREnd   == IsEvent("REnd") /\ EndEn(w, Q(Ev.q)) /\ w' = EndF(w, Q(Ev.q))
 \* the router saw its context done: the manager must have cancelled that query (no timeouts in T)
-TRCtx   == IsEvent("RCtx") /\ Ev.err # "" /\ w.qry[Ev.q].cerr = Ev.err /\ UNCHANGED w
+TRCtx   == IsEvent("RCtx") /\ Ev.err # "" /\ w.qry[Q(Ev.q)].cerr = Ev.err /\ UNCHANGED w
 TRecv   == /\ IsEvent("Recv") /\ ReadEn(w, Ev.r) /\ Head(w.req[Ev.r].inbuf) = <<Ev.k, Ev.i>>
            /\ w' = ReadF(w, Ev.r)
 TClosed == IsEvent("Closed") /\ w.req[Ev.r].st = "done" /\ UNCHANGED w
@@ -40,9 +44,9 @@ TQuiet  == /\ IsEvent("Quiet") /\ Ev.leak = 0
            /\ UNCHANGED w
 TSilent == l <= Len(Trace) /\ w' \in IntSuccCore(w, Devs) /\ UNCHANGED l
 
-TNext == /\ TReset \/ TCall \/ TCancel \/ TRStart \/ TREmit \/ TDial \/ TREnd \/ TRCtx \/ TRecv \/ TClosed
-            \/ TClose \/ TQuiet \/ TSilent
-         /\ du' = du \cup w'.dev
+TNextW == \/ TReset \/ TRStart
+          \/ (TCall \/ TCancel \/ TREmit \/ TDial \/ TREnd \/ TRCtx \/ TRecv \/ TClosed \/ TClose \/ TQuiet \/ TSilent) /\ UNCHANGED qm
+TNext == TNextW /\ du' = du \cup w'.dev
 TSpec == TInit /\ [][TNext]_tvars
 
 DevReport == l <= Len(Trace) \/ \A d \in du : PrintT(<<"DEV_USED", d>>)
